@@ -260,13 +260,20 @@ func Harness_C01_HashMod() {
 }
 
 // vhDate draws a date literal YYYY-MM-DD: YYYY each of 2014..2019, MM-DD from {01-01, 06-15} (rows: also 12-31);
-// its reference value is the number YYYYMMDD (date order = numeric order). The date is concrete per path:
+// literals on January 1st also come as 'YYYY-01-01 00:00:00.5'; the reference value is the number YYYYMMDD0 (+1 for the half second), so date order = numeric order. The date is concrete per path:
 // the period-start test of the date rules parses it with package time.
 func vhDate(name string, forRow bool) (int64, string) {
 	y := vs.IntRange(name+".year", 2014, 2019)
 	k := vs.Choice(name+".monthday", vs.IteInt(forRow, 3, 2))
 	md := []string{"-01-01", "-06-15", "-12-31"}[k]
-	return int64(y)*10000 + []int64{101, 615, 1231}[k], string([]byte{byte('0' + y/1000), byte('0' + y/100%10), byte('0' + y/10%10), byte('0' + y%10)}) + md
+	text := string([]byte{byte('0' + y/1000), byte('0' + y/100%10), byte('0' + y/10%10), byte('0' + y%10)}) + md
+	num := (int64(y)*10000 + []int64{101, 615, 1231}[k]) * 10
+	if !forRow && k == 0 && vs.Choice(name+".fraction", 2) == 1 {
+		// half a second past the first instant of the year: no longer the period start
+		text += " 00:00:00.5"
+		num++
+	}
+	return num, text
 }
 
 func vhDateGen(name string) (int64, ast.ExprNode) {
@@ -276,7 +283,7 @@ func vhDateGen(name string) (int64, ast.ExprNode) {
 	return num, ve
 }
 
-//verif:harness prop=C01 bounds="date_year rule with tables 2015..2018 (ranges 2015-2016, 2017-2018), date_month rule with tables 201501..201512, date_day rule 20150101..10 and 20150611..20 (quick: year only); conditions leaf and NOT(leaf) with date literals YYYY-MM-DD (every year 2014..2019, MM-DD from {01-01, 06-15}); row date of the same form plus 12-31 (dates are enumerated, not symbolic: the rules parse them with package time)"
+//verif:harness prop=C01 bounds="date_year rule with tables 2015..2018 (ranges 2015-2016, 2017-2018), date_month rule with tables 201501..201512, date_day rule 20150101..10 and 20150611..20 (quick: year only); conditions leaf and NOT(leaf) with date literals YYYY-MM-DD (every year 2014..2019, MM-DD from {01-01, 06-15}, January 1st also with the time 00:00:00.5); row date of the same form plus 12-31 (dates are enumerated, not symbolic: the rules parse them with package time)"
 func Harness_C01_Dates() {
 	var r *models.Shard
 	switch vs.Choice("rule", vs.Pick(1, 3)) {
